@@ -293,6 +293,28 @@ theorem die_complete_fresh (sqrt : α → α) (hsqrt : ∀ x, 0 ≤ sqrt x) (doc
   exact ⟨picks, hall picks hacc⟩
 
 
+/-- validity for a tolerance implies validity for every smaller one (only `Separated` depends on it). -/
+theorem validDie_anti {ε ε' : α} {inp : DieIn α} {fixed : List (Rect α)} (hle : ε ≤ ε') (hv : ValidDie ε' inp fixed) :
+    ValidDie ε inp fixed :=
+  ⟨hv.pos, hv.inside, hv.disjoint, hv.separatedX.anti hle, hv.separatedY.anti hle⟩
+
+/-- **die_complete_inherited** — completeness with ONE separation hypothesis for all histories: if the description is
+    valid for a tolerance `εmax` and the class-wide distance tolerance in force (the die's own proposal, or whatever an
+    earlier design left behind) is at most `εmax`, every admissible run of the constructor returns with an exact tiling. -/
+theorem die_complete_inherited (sqrt : α → α) (st : Option (α × α)) (doc : YV α) (fixed : List (Rect α)) (inp : DieIn α)
+    (hp : parseDie doc = .ok inp) (εmax : α)
+    (hεd : 0 ≤ (mkEps sqrt st inp.W inp.H).1.d) (hle : (mkEps sqrt st inp.W inp.H).1.d ≤ εmax)
+    (hεa : 0 ≤ (mkEps sqrt st inp.W inp.H).1.a)
+    (hv : ValidDie εmax inp fixed) (picks : List IRect)
+    (hacc : coverAccept ((gridOf (mkEps sqrt st inp.W inp.H).1 inp fixed).2.length - 1)
+      ((gridOf (mkEps sqrt st inp.W inp.H).1 inp fixed).1.length - 1)
+      (occ (gridOf (mkEps sqrt st inp.W inp.H).1 inp fixed).1 (gridOf (mkEps sqrt st inp.W inp.H).1 inp fixed).2
+        (occRects inp fixed)) picks = true) :
+    ∃ out, dieModel sqrt st doc fixed (some picks) =
+        .ok (out, (mkEps sqrt st inp.W inp.H).1, (mkEps sqrt st inp.W inp.H).2) ∧
+      ExactTiling out ∧ Tiling (mkEps sqrt st inp.W inp.H).1 out :=
+  die_complete sqrt st doc fixed inp hp hεd hεa (validDie_anti hle hv) picks hacc
+
 /-- the deterministic instance used in `model` mode (candidates in list order, first of maximal area) is an instance of
     the relational cover: it never fails for lack of fuel and whatever it returns is an admissible complete pick
     sequence — so `die_sound`, `die_complete` apply to `dieModel … none` as well. -/
@@ -352,19 +374,43 @@ theorem die_rejects_overlap (sqrt : α → α) (st : Option (α × α)) (doc : Y
     rw [he] at this
     exact absurd hov (not_lt.mpr this)
 
-/-
-  NOT YET PROVED (third clause of die_rejects, DESIGN.md C01 item 5):
+/-- regions that live on their own Hanan grid (what `ValidDie` asks, minus disjointness): positive sizes, inside the die,
+    distinct boundary coordinates further apart than the distance tolerance in force. -/
+structure OnGrid (εd : α) (inp : DieIn α) (fixed : List (Rect α)) : Prop where
+  pos : ∀ r ∈ occRects inp fixed, 0 < r.w ∧ 0 < r.h
+  inside : ∀ r ∈ occRects inp fixed, 0 ≤ r.xmin ∧ r.xmax ≤ inp.W ∧ 0 ≤ r.ymin ∧ r.ymax ≤ inp.H
+  separatedX : Sep εd (boundsX (occRects inp fixed ++ [dieRect inp.W inp.H]))
+  separatedY : Sep εd (boundsY (occRects inp fixed ++ [dieRect inp.W inp.H]))
 
-  theorem die_rejects_small_overlap … (regions inside the die, positive sizes, Separated, but with total doubly
-      covered area  E = Σ area(regions) − area(⋃ regions)  satisfying  ε.die · max W H ≤ E) :
-      ∀ picks, ∃ err, dieModel sqrt st doc fixed picks = .error err
+/-- **die_rejects** (c) — overlaps too small for the pairwise test are rejected by the area-sum test: if the regions lie
+    on their Hanan grid inside the die and two of them (at different positions) have common area at least
+    `ε.die · max W H` — the exact threshold of the area-sum test: for an exact cover the reported areas sum to `W·H` plus
+    the doubly covered area — the constructor fails, whatever picks are offered.  Together with (b) every overlap of at
+    least `min(ε.die · max W H, anything above ε.a)` is rejected. -/
+theorem die_rejects_small_overlap (sqrt : α → α) (st : Option (α × α)) (doc : YV α) (fixed : List (Rect α))
+    (inp : DieIn α) (hp : parseDie doc = .ok inp)
+    (hεd : 0 ≤ (mkEps sqrt st inp.W inp.H).1.d) (hg : OnGrid (mkEps sqrt st inp.W inp.H).1.d inp fixed)
+    (i j : Nat) (hi : i < j) (hj : j < (occRects inp fixed).length)
+    (hov : (mkEps sqrt st inp.W inp.H).1.die * max inp.W inp.H ≤
+      ((occRects inp fixed)[i]'(by omega)).areaOverlap ((occRects inp fixed)[j]))
+    (picks : Option (List IRect)) : ∃ err, dieModel sqrt st doc fixed picks = .error err := by
+  obtain ⟨kv, _, _, _, hW, hH, _⟩ := parseDie_ok doc inp hp
+  have hgi : GridIn (mkEps sqrt st inp.W inp.H).1.d inp.W inp.H (occRects inp fixed) :=
+    ⟨hW, hH, hεd, hg.pos, hg.inside, hg.separatedX, hg.separatedY⟩
+  have hnp : ¬ (occRects inp fixed).Pairwise
+      (fun x y => x.areaOverlap y < (mkEps sqrt st inp.W inp.H).1.die * max inp.W inp.H) := by
+    intro hpw
+    have := (List.pairwise_iff_getElem.mp hpw) i j (by omega) hj hi
+    exact absurd hov (not_le.mpr this)
+  unfold dieModel
+  simp only [hp]
+  split
+  · exact ⟨_, rfl⟩
+  · rename_i p _
+    obtain ⟨err, herr⟩ := dieCore_rejects_excess (mkEps sqrt st inp.W inp.H).1 inp fixed hgi hnp p
+    rw [herr]
+    exact ⟨_, rfl⟩
 
-  i.e. overlaps too small for the pairwise `overlap` test (≤ εA) are still rejected, by the area-sum test.  It needs the
-  free-area book-keeping of `dieCore_complete` generalised from "each cell owned once" to "cell multiplicities"
-  (Σ areas = Σ_cells multiplicity · cell area).  What IS proved: `die_rejects_outside`, `die_rejects_overlap`, and — through
-  `die_sound` — that any accepted die has |Σ areas − W·H| < ε.die · max W H.  The harness' validity oracle searches this
-  clause (documents whose exact doubly-covered area exceeds 2 · ε.die · max W H must be rejected).
--/
 
 /-! ### non-vacuity: the die of `tests/frame/die/test_die.py` (`die7` with its netlist), executed at `Rat` -/
 
@@ -394,5 +440,59 @@ example : (⟨28, 10, 10, 10, "DSP", false, false, .nopoly⟩ : Rect ℚ).xmax >
 example : coverAccept 2 2 (fun r c => r == 0 && c == 0) [⟨0, 0, 1, 1⟩, ⟨1, 1, 0, 1⟩] = true := by decide
 example : coverAccept 2 2 (fun r c => r == 0 && c == 0) [⟨0, 1, 1, 1⟩, ⟨1, 1, 0, 0⟩] = true := by decide
 example : coverAccept 2 2 (fun r c => r == 0 && c == 0) [⟨0, 1, 0, 1⟩] = false := by decide
+
+/-! ### applied witnesses: the theorems used on concrete documents -/
+
+/-- `die_sound` applied: the accepted run of `die7` (obtained from `die_complete_fresh`) satisfies `Tiling`, reports the
+    two netlist rectangles as fixed regions, the blockage separately, and the die size of the document. -/
+example : ∃ picks out e st', dieModel (fun _ => (1 : ℚ)) none doc7 fixed7 (some picks) = .ok (out, e, st') ∧
+    Tiling e out ∧ out.fixed = fixed7 ∧ out.blockages.length = 1 ∧ out.specialized.length = 2 ∧ out.W = 10 := by
+  obtain ⟨picks, out, e, st', h, _⟩ := (die_complete_fresh (fun _ => (1 : ℚ)) (fun _ => by norm_num) doc7 fixed7 inp7
+    (by with_unfolding_all rfl)
+    (by
+      constructor
+      · decide +kernel
+      · decide +kernel
+      · decide +kernel
+      · unfold Die.Sep; decide +kernel
+      · unfold Die.Sep; decide +kernel)).1
+  obtain ⟨inp, hp, _, _, e1, _, e3, e4, e5, _, ht⟩ := die_sound _ _ _ _ _ out e st' h
+  have hinp : inp = inp7 := by
+    have : parseDie doc7 = .ok inp7 := by with_unfolding_all rfl
+    rw [this] at hp; cases hp; rfl
+  subst hinp
+  exact ⟨picks, out, e, st', h, ht, e5, by rw [e4]; decide, by rw [e3]; decide, by rw [e1]; rfl⟩
+
+private def docOv : YV ℚ := .map [("width", .num 10), ("height", .num 10),
+  ("regions", .list [.list [.num 3, .num 3, .num 4, .num 4, .str "A"], .list [.num 5, .num 5, .num 4, .num 4, .str "B"]])]
+private def inpOv : DieIn ℚ := { W := 10, H := 10, regions := [⟨3, 3, 4, 4, "A", false, false, .nopoly⟩,
+  ⟨5, 5, 4, 4, "B", false, false, .nopoly⟩] }
+
+/-- `die_rejects_overlap` applied: two regions with common area 4 (area tolerance 1/1000) — rejected for every pick
+    sequence and for the deterministic instance. -/
+example (picks : Option (List IRect)) : ∃ err, dieModel (fun _ => (1 : ℚ) / 1000) none docOv [] picks = .error err :=
+  die_rejects_overlap (fun _ => (1 : ℚ) / 1000) none docOv [] inpOv (by with_unfolding_all rfl) 0 1 (by decide)
+    (by decide) (by decide +kernel) picks
+
+private def docSl : YV ℚ := .map [("width", .num 10), ("height", .num 10),
+  ("regions", .list [.list [.num (5/2), .num 5, .num 5, .num 10, .str "A"],
+                     .list [.num (14999999999/2000000000), .num 5, .num (5000000001/1000000000), .num 10, .str "B"]])]
+private def inpSl : DieIn ℚ := { W := 10, H := 10, regions := [⟨5/2, 5, 5, 10, "A", false, false, .nopoly⟩,
+  ⟨14999999999/2000000000, 5, 5000000001/1000000000, 10, "B", false, false, .nopoly⟩] }
+
+/-- `die_rejects_small_overlap` applied: `A = [0,5]×[0,10]`, `B = [5−1e-9,10]×[0,10]` share an area of `1e-8`, far below the
+    area tolerance `1/1000` (so the pairwise test is silent) but above `ε.die · max W H = 1e-9`: rejected. -/
+example (picks : Option (List IRect)) : ∃ err, dieModel (fun _ => (1 : ℚ) / 1000) none docSl [] picks = .error err :=
+  die_rejects_small_overlap (fun _ => (1 : ℚ) / 1000) none docSl [] inpSl (by with_unfolding_all rfl) (by decide +kernel)
+    (by
+      constructor
+      · decide +kernel
+      · decide +kernel
+      · unfold Die.Sep; decide +kernel
+      · unfold Die.Sep; decide +kernel)
+    0 1 (by decide) (by decide) (by decide +kernel) picks
+example : ¬ ((mkEps (fun _ => (1 : ℚ) / 1000) none 10 10).1.a <
+    (⟨5/2, 5, 5, 10, "A", false, false, .nopoly⟩ : Rect ℚ).areaOverlap
+      ⟨14999999999/2000000000, 5, 5000000001/1000000000, 10, "B", false, false, .nopoly⟩) := by decide +kernel
 
 end FV.C01
